@@ -17,7 +17,11 @@ import (
 var checks = map[string]func(*Ctx){
 	"C19": checkC19,
 	"C20": checkC20,
+	"C01": checkC01,
+	"C02": checkC02,
+	"C03": checkC03,
 	"C06": checkC06,
+	"C12": checkC12,
 	"C09": checkC09,
 	"C11": checkC11,
 	"C16": checkC16,
@@ -40,6 +44,16 @@ func main() {
 		}
 		sort.Strings(ids)
 		fmt.Println(strings.Join(ids, " "))
+		return
+	}
+	if d := os.Getenv("VERIF_DEBUG_AFF"); d != "" {
+		p, err := LoadProg(*repo, nil)
+		if err != nil {
+			fmt.Println(err)
+			os.Exit(2)
+		}
+		parts := strings.SplitN(d, ":", 2)
+		debugAff(p, parts[0], parts[1])
 		return
 	}
 	fn, ok := checks[*property]
